@@ -128,18 +128,27 @@ func mFragmentX(seq, base int64, samples []mSample, payload []byte, extras strin
 			kids = append(kids, extraZzzz)
 		}
 		mk := [][]byte{mMfhd(seq)}
-		if extras != "none" {
+		if extras != "none" && extras != "seg-sidx" {
 			mk = append(mk, extraVndr)
 		}
 		mk = append(mk, mkBox("traf", kids...))
-		if extras != "none" {
+		if extras != "none" && extras != "seg-sidx" {
 			mk = append(mk, extraUUIDMoof)
 		}
 		return mkBox("moof", mk...)
 	}
 	moof := build(0)
 	moof = build(int64(len(moof) + 8))
-	return cat(moof, mMdat(payload, false))
+	frag := cat(moof, mMdat(payload, false))
+	if extras == "seg-sidx" {
+		// a media segment with its own index: styp sidx moof mdat (the sidx is not protection signalling)
+		var dur int64
+		for _, sm := range samples {
+			dur += sm.Dur
+		}
+		return cat(mStyp("msdh", 0, "msdh", "msix"), mSidx(1, 90000, base, 0, []sidxRefM{{int64(len(frag)), dur}}), frag)
+	}
+	return frag
 }
 
 // ---- independent observation of the encrypted fragment
@@ -668,7 +677,7 @@ func cencDrive(args []string) error {
 				iv = append(append([]byte{}, iv[8:]...), make([]byte, 8)...)
 			}
 			job.iv = iv
-			job.extras = []string{"none", "nouuid-in-traf", "all"}[ci%3]
+			job.extras = []string{"none", "nouuid-in-traf", "all", "none", "seg-sidx", "all", "nouuid-in-traf"}[ci%7]
 			job.perFrag = ci%2 == 1
 			cencRun(rep, tw7, tw6, &job, key, fmt.Sprintf("case%d", ci))
 			if c07EncBin != "" && ci%3 == int(seedFromEnv())%3 {
@@ -1184,6 +1193,24 @@ func cencRun(rep *Report, tw7, tw6 *TraceWriter, job *cencJob, key []byte, name 
 					rt["kids"] = J{"moof": o2.MoofKids, "traf": o2.TrafKids, "want_moof": o1.MoofKids, "want_traf": o1.TrafKids}
 				}
 			}
+		}
+		// top-level boxes: the decrypted file has the box sequence of the clear file (styp, sidx ... are not protection signalling)
+		seq := func(b []byte) string {
+			top, _ := walkBoxes(b, 0)
+			t, media := "", false
+			for _, x := range top {
+				if x.Type == "styp" || x.Type == "sidx" || x.Type == "moof" {
+					media = true // the media part; what happens to boxes around the init segment is the file encoder's business (C02)
+				}
+				if media {
+					t += x.Type + " "
+				}
+			}
+			return t
+		}
+		if a, b := seq(dec), seq(clearFile); a != b {
+			kept = false
+			rt["top_level"] = J{"decrypted": a, "clear": b}
 		}
 		rt["boxes_kept"] = kept
 	}()
